@@ -42,19 +42,19 @@ Definition bphp_bits (n : Z) : Z := Z.log2_up n.
 Definition bphp_numvar (m n : Z) : Z := m * bphp_bits n.
 (* variable of bit b (0 = least significant) of pigeon i:  i*K - b *)
 Definition bitvar (K i b : Z) : Z := i * K - b.
-(* forbid(i,j) restricted to the bits k-1 .. 0, most significant first:
+(* BinaryMappingVariables.forbid(i,j) restricted to the bits k-1 .. 0, most significant first:
    the sign is -1 where j has a 1 (flips[j] = j-th tuple of product([1,-1],repeat=K)) *)
-Fixpoint forbid_from (K i j : Z) (k : nat) : list Z :=
+Fixpoint bphp_forbid_from (K i j : Z) (k : nat) : list Z :=
   match k with
   | O => []
   | S k' => (if Z.testbit j (Z.of_nat k') then - bitvar K i (Z.of_nat k') else bitvar K i (Z.of_nat k'))
-            :: forbid_from K i j k'
+            :: bphp_forbid_from K i j k'
   end.
-Definition forbid (K i j : Z) : list Z := forbid_from K i j (Z.to_nat K).
+Definition bphp_forbid (K i j : Z) : list Z := bphp_forbid_from K i j (Z.to_nat K).
 Definition bphp_ir (m n : Z) : list ir :=
   let K := bphp_bits n in
-  flat_map (fun i => map (fun j => IClause (forbid K i j)) (zrange n (2 ^ K))) (upto m)
-  ++ flat_map (fun y => map (fun x => IClause (forbid K (fst x) y ++ forbid K (snd x) y)) (pairs (upto m)))
+  flat_map (fun i => map (fun j => IClause (bphp_forbid K i j)) (zrange n (2 ^ K))) (upto m)
+  ++ flat_map (fun y => map (fun x => IClause (bphp_forbid K (fst x) y ++ bphp_forbid K (snd x) y)) (pairs (upto m)))
               (zrange 0 n).
 
 (* the DOCUMENTED behaviour on the whole documented domain (pigeons, holes >= 0), see finding D30:
